@@ -1894,7 +1894,9 @@ def ip_on_edge_rule(db, chk, cfg, rule="IP.on-edge"):
                         ev = canon(a[0])
                     return ("TopX", str(ev), yv)
                 return NotImplemented
-            it = Interp(db, {"ip.y": y0, "ip.x": 0, "top_y": TOP, "bot_y_": BOT, "e1.dx": d1, "e2.dx": d2}, call_hook=hook)
+            # (curr_x of an edge in the active list is its x at the top of the scanbeam: AdjustCurrXAndCopyToSEL(top_y))
+            it = Interp(db, {"ip.y": y0, "ip.x": 0, "top_y": TOP, "bot_y_": BOT, "e1.dx": d1, "e2.dx": d2,
+                             "e1.curr_x": ("TopX", "e1", TOP), "e2.curr_x": ("TopX", "e2", TOP)}, call_hook=hook)
             box[0] = it
             try:
                 it.exec(site)
